@@ -2,7 +2,7 @@
 From Coq Require Import String List NArith Arith Bool Lia.
 Import ListNotations.
 From ABNF Require Import Base Engine Spec Wf Checks WfCheck Cert LangEq L_C01 L_C05
-     AbnfRead Registry GenTypes Loader Bundled RfcSpec Tables.
+     AbnfRead Registry GenTypes Loader Bundled RfcSpec Tables TablesAll.
 
 Definition G_meta : grammar := of_list l_meta.
 
@@ -154,6 +154,12 @@ Proof.
   apply andb_true_iff in Heq. destruct Heq as [E1 E2]. apply N.eqb_eq in E1. apply N.eqb_eq in E2. subst.
   unfold G_meta. exact (lang_eq_sound (of_list l_meta) (of_list l_rfc) meta_pairs 60 meta_eq_rfc a b Hp s i j).
 Qed.
+(* loading EVERY bundled module leaves the core class (and the meta class) exactly as `import abnf.parser` made them:
+   no bundled grammar text redefines a core or meta rule (obligation over the translated module descriptions) *)
+Lemma core_unchanged_by_bundled_modules :
+  same_class (r_boot tt) R_all 0%N && same_class (r_boot tt) R_all 1%N = true.
+Proof. vm_cast_no_check (eq_refl true). Qed.
+
 (* as seen from any grammar class: a class without a rule of that name resolves it to the core rule object *)
 Lemma core_seen_from_any_class R c name :
   find_obj c (fold_name name) (objs R) 0 = None -> rget R c name = find_obj 0%N (fold_name name) (objs R) 0.
